@@ -54,11 +54,21 @@ class Executor(Base, ContMixin, ExprMixin, CallMixin, LibMixin, StmtMixin, CompM
         raise VCError('no type for parameter %s of %s' % (name, f.qualname))
 
     def verify_function(self, c, prop):
-        """Generate the obligations of one function under contract."""
+        """Generate the obligations of one function under contract (once per view)."""
+        if not c.views:
+            return self._verify_view(c, prop, None)
+        for v in c.views:
+            self._verify_view(c, prop, v)
+
+    def _verify_view(self, c, prop, view):
         ctx = self.ctx
         self.current_prop = prop
         f = ctx.repo.func(c.module, c.qualname)
         frame = Frame(f.module, f.cls, f, c, 0, verifying=True)
+        if view is not None:
+            frame.label = '%s[%s]' % (f.qualname, view.name)
+            frame.view_loops = view.loops
+            frame.view = view
         st = State(ctx)
         a = f.node.args
         names = [x.arg for x in a.posonlyargs + a.args + a.kwonlyargs]
@@ -75,7 +85,10 @@ class Executor(Base, ContMixin, ExprMixin, CallMixin, LibMixin, StmtMixin, CompM
         sp.spec = True
         for r in c.requires:
             st.assume(self.spec_bool(r, sp, frame))
-        label = '%s/%s.%s' % (prop, f.module.replace('zeroconf.', ''), f.qualname)
+        for gd in c.ghost_defs:
+            st.assume(self.spec_bool(gd, sp, frame))
+            self.ctx.assumed.add('ghost definition in %s (conservative extension): %s' % (c.qualname, gd[:160]))
+        label = '%s/%s.%s' % (prop, f.module.replace('zeroconf.', ''), frame.label)
         if c.canary:
             ob = Obligation(ctx.new_oid(label + '/canary-pre'), 'canary', st.pc, z3.BoolVal(False),
                             note='precondition must be satisfiable')
@@ -134,9 +147,11 @@ class Executor(Base, ContMixin, ExprMixin, CallMixin, LibMixin, StmtMixin, CompM
                 post.locals[gname] = st.locals[gname]
             else:
                 post.locals[gname] = self.fresh_val('go_' + gname, parse_type(c.ghost_out[gname]), st)
-        for i, e in enumerate(c.ensures):
+        view = getattr(frame, 'view', None)
+        ens = c.ensures if view is None else view.ensures
+        for i, e in enumerate(ens):
             g = self.spec_bool(e, post, frame)
-            self.oblige(st, g, 'ensures#%d' % i, frame, f.node, e)
+            self.oblige(st, g, 'ensures#%d' % i, frame, f.node, e, assume=False)
         for exc in c.raises_exact:
             g = self.spec_bool(c.raises[exc], pre, frame)
             self.oblige(st, z3.Not(g), 'raises-exact[%s]' % exc, frame, f.node,
@@ -179,7 +194,7 @@ class Executor(Base, ContMixin, ExprMixin, CallMixin, LibMixin, StmtMixin, CompM
                     continue
             raise VCError('modifies clause %s' % m)
         for fid, cur in st.heap.items():
-            if fid in whole:
+            if fid in whole or fid.startswith('$'):
                 continue
             old = pre.heap.get(fid)
             if old is None:
